@@ -113,6 +113,30 @@ def sc_map(B, C, D, um, uv, uw, mode, split=False):
     return o
 
 
+def sc_extreme_r(B, r):
+    """very large / vanishing relevance factors on the real code: the prior / the ML estimate"""
+    import numpy as np
+
+    gmm = B.mod("gmm")
+    ubm = gmm.GMMMachine(2)
+    ubm.weights, ubm.means, ubm.variances = np.array([0.4, 0.6]), np.array([[1.0, -2.0], [3.0, 0.5]]), np.array([[1.0, 2.0], [0.5, 1.5]])
+    m = gmm.GMMMachine(2, trainer="map", ubm=ubm, update_means=True, update_weights=True, map_relevance_factor=r)
+    s = gmm.GMMStats(2, 2)
+    s.n, s.sum_px, s.sum_pxx, s.t, s.log_likelihood = np.array([3.0, 5.0]), np.array([[2.0, -7.0], [16.0, 1.0]]), np.array([[9.0, 20.0], [60.0, 9.0]]), 8, -10.0
+    gmm.m_step([s], m)
+    al = [3.0 / (3.0 + r), 5.0 / (5.0 + r)]
+    mu = [[al[c] * s.sum_px[c, d] / s.n[c] + (1 - al[c]) * ubm.means[c, d] for d in range(2)] for c in range(2)]
+    raw = [al[c] * s.n[c] / 8 + (1 - al[c]) * ubm.weights[c] for c in range(2)]
+    o = Outcome()
+    o.equal("extreme-r/means", m.means, mu)
+    o.equal("extreme-r/weights", m.weights, [raw[c] / sum(raw) for c in range(2)])
+    return o
+
+
+def job_extreme(P):
+    P.probe_real("extreme-relevance", sc_extreme_r, [dict(r=r) for r in (1e-300, 1e-12, 1e12, 1e300, 1e306, 1e307, 1.7e308, float("inf"))], tries=1)
+
+
 def job_map(P, C, D, mode):
     for um, uv, uw in itertools.product((False, True), repeat=3):
         P.run("%s-m%dv%dw%d" % (mode, um, uv, uw), sc_map, dict(C=C, D=D, um=um, uv=uv, uw=uw, mode=mode), validate=1)
@@ -121,7 +145,7 @@ def job_map(P, C, D, mode):
 
 
 def jobs(tier):
-    out = []
+    out = [("extreme-r", "job_extreme", {})]
     for (C, D) in SIZES[tier]:
         for mode in ("reynolds", "alpha-scalar", "alpha-array", "alpha-one"):
             out.append(("map@C%dD%d-%s" % (C, D, mode), "job_map", dict(C=C, D=D, mode=mode)))
